@@ -63,6 +63,14 @@ Proof.
   intros o a b [Hf Hv Hs Hi Ht He Him Hc Hd Hst].
   destruct o; simpl;
     try (constructor; simpl; intros; auto using lookup_bind_congr'; congruence).
+  - (* OEnum *) rewrite He. destruct (lookup k (enums b)).
+    + constructor; auto.
+    + constructor; simpl; intros; auto; congruence.
+  - (* OImpl *)
+  rewrite Him. destruct (has_impl _ _ _).
+    + constructor; simpl; intros; auto; try congruence. apply lookup_bind_all_congr; auto.
+    + destruct (find_conflict _ _); [reflexivity|].
+      constructor; simpl; intros; auto; try congruence. apply lookup_bind_all_congr; auto.
 Qed.
 
 (* steps only the importing side performs: qualified bindings and the loaded_modules mark *)
@@ -122,7 +130,7 @@ Proof.
   intros [g ms] H. unfold import_sdef. simpl. f_equal. unfold no_arrays in H. simpl in H.
   induction ms as [|[n a] ms IH]; simpl; [reflexivity|].
   rewrite IH by (intros; apply H; now right).
-  unfold strip_member. simpl. rewrite <- (H (mkMember n a)) at 2 by now left. reflexivity.
+  assert (Ha : a = None) by (apply (H (mkMember n a)); now left). subst a. reflexivity.
 Qed.
 
 Lemma erase_import_decl : forall p d, decl_ok d ->
@@ -172,13 +180,18 @@ Qed.
 Lemma map_str_app : forall f a b, map_str f (a +++ b) = map_str f a +++ map_str f b.
 Proof. induction a; intros; simpl; [reflexivity|]. now rewrite IHa. Qed.
 
+Lemma contains_dot_cons : forall a s,
+  contains "." (String a s) = if ascii_dec "."%char a then true else contains "." s.
+Proof.
+  intros. cbn [contains String.prefix]. destruct (ascii_dec "."%char a); [|reflexivity]. now destruct s.
+Qed.
+
 Lemma no_dot_map_id : forall s, contains "." s = false -> map_str dot_to_slash s = s.
 Proof.
-  induction s; intros H; simpl in *; [reflexivity|].
-  destruct (ascii_dec "."%char a) as [<-|N].
-  - destruct s; discriminate.
-  - rewrite IHs by assumption. unfold dot_to_slash.
-    destruct (Ascii.eqb_spec a "."%char); [congruence|reflexivity].
+  induction s; intros H; [reflexivity|]. rewrite contains_dot_cons in H. cbn [map_str].
+  destruct (ascii_dec "."%char a) as [E|N]; [discriminate|].
+  rewrite IHs by assumption. unfold dot_to_slash.
+  destruct (Ascii.eqb_spec a "."%char); [congruence|reflexivity].
 Qed.
 
 Lemma dots_become_slashes : forall segs, (forall s, In s segs -> contains "." s = false) ->
@@ -202,8 +215,8 @@ Lemma file_path_plain : forall p, contains "." p = false -> file_path_of p = p +
 Proof.
   intros p H. unfold file_path_of.
   assert (contains ".cb" p = false) as ->.
-  { induction p; simpl in *; [reflexivity|].
-    destruct (ascii_dec "."%char a) as [<-|N]; [destruct p; discriminate|]. auto. }
+  { induction p; [reflexivity|]. rewrite contains_dot_cons in H. cbn [contains String.prefix].
+    destruct (ascii_dec "."%char a) as [E|N]; [discriminate|]. auto. }
   now rewrite H.
 Qed.
 
@@ -216,3 +229,18 @@ Qed.
 Lemma unresolved_is_error : forall fuel fs t p, mem p (loaded t) = false -> resolve fs p = None ->
   handle_import fuel fs t p = Err (EOpen p (file_path_of p)).
 Proof. intros. unfold handle_import, path_ops. now rewrite H, H0. Qed.
+
+Lemma dotted_path_resolution_l : forall segs fs m,
+  (forall s, In s segs -> contains "." s = false) ->
+  let p := String.concat "." segs in
+  contains ".cb" p = false -> contains "." p = true -> contains "/" p = false -> contains ".." p = false ->
+  lookup (String.concat "/" segs +++ ".cb") fs = Some m ->
+  resolve fs p = Some m.
+Proof.
+  intros segs fs m Hs p H1 H2 H3 H4 Hl. apply resolve_first_candidate.
+  rewrite (file_path_dotted p H1 H2 H3 H4). unfold p. now rewrite (dots_become_slashes segs Hs).
+Qed.
+
+Lemma undotted_path_resolution_l : forall p fs m,
+  contains "." p = false -> lookup (p +++ ".cb") fs = Some m -> resolve fs p = Some m.
+Proof. intros p fs m H Hl. apply resolve_first_candidate. now rewrite (file_path_plain p H). Qed.
